@@ -410,6 +410,8 @@ func (p *Program) verifyFunction(key string) *FuncResult {
 				var posts []string
 				var envs []*env
 				bad := false
+				outOfScope := 0
+				var lastErr error
 				for _, r := range g.rets {
 					e := g.newEnv(r.st, g.entry)
 					e.results = r.vals
@@ -427,16 +429,31 @@ func (p *Program) verifyFunction(key string) *FuncResult {
 					}
 					t, err := g.elabBool(cl.E, e)
 					if err != nil {
-						g.contractError(cl, err)
-						bad = true
-						break
+						if strings.Contains(err.Error(), "unknown name") {
+							// a source local named by the clause is not yet declared on this return path:
+							// the clause does not apply there (it must apply at one return at least)
+							outOfScope++
+							lastErr = err
+							t = "true"
+						} else {
+							g.contractError(cl, err)
+							bad = true
+							break
+						}
 					}
 					conj = append(conj, implies(r.reach, t))
 					posts = append(posts, t)
 					envs = append(envs, e)
 				}
+				if !bad && outOfScope == len(g.rets) && lastErr != nil {
+					g.contractError(cl, lastErr)
+					bad = true
+				}
 				if bad {
 					continue
+				}
+				if outOfScope > 0 {
+					g.ctx.note(fmt.Sprintf("ensures %s: not applicable at %d return(s) where a named local is out of scope", cl.Label, outOfScope))
 				}
 				name := fmt.Sprintf("%s.ensures.%s", key, cl.Label)
 				// known findings whose witness predicate speaks about the return state (whenpost)
